@@ -84,3 +84,75 @@ PROPS["C06"] = dict(
     rule="cases: every text of MC_Mappings (base texts and every single fault at every position, 3 array sizes incl. empty arrays) and seeded random well-formed texts damaged by 1-2 faults (9 fault operators); distinct = distinct (text, sizes); non-trivial = text of >= 2 symbols",
     assumptions=COMMON_ASSUMPTIONS,
 )
+
+def _corrupt_map(e):
+    o = e["out"]
+    if e["op"] == "roundtrip":
+        p2 = o["p2"]
+        if p2.get("toks"):
+            t = p2["toks"][len(p2["toks"]) // 2]
+            t[1] += 1
+            return True
+        o["same"] = not o["same"]
+        return True
+    if e["op"] == "encode":
+        d = o["doc"]
+        if d.get("mappings") and d["mappings"][0]:
+            ms = d["mappings"][0]
+            for i, s in enumerate(ms):
+                if s < 32:
+                    ms[i] = (s + 2) % 32
+                    return True
+        d["version"] = [4]
+        return True
+    if e["op"] == "lookups":
+        for r in o["rs"]:
+            if r:
+                r[0]["tok"][1] += 1
+                return True
+        return False
+    if e["op"] == "ordering":
+        if o["toks"]:
+            o["gets"][0][1] += 1
+            return True
+        o["count"] += 1
+        return True
+    return False
+
+def _map_ntoks(e):
+    p = e["args"].get("p1") or {}
+    return len(p.get("toks", [])) if isinstance(p, dict) else 0
+
+PROPS["C01"] = dict(
+    level="model_checking",
+    level_text="Encoder and decoder are separate TLA+ state machines (Mappings.tla); TLC checks Decode(Encode(ts)) = Dedup(ts) for every ordered token list of a bounded grid (MC_Encode) and enumerates those lists; each is realised in the real crate three ways (SourceMap::new, SourceMapBuilder, decoding a harness-written document), serialised, decoded, serialised twice more; TLC judges the decoded projection against the specification's own write/read composition and the byte-identity flag. Seeded random flat/Hermes/index maps extend this to larger sizes and string pools.",
+    level_note="JSON string escaping / number formatting are serde_json's and only observed through their round trip; positions < 2^29",
+    technique="TLA+ encoder/decoder machines, TLC bounded model checking of the round-trip theorem, trace validation of real to_writer/decode_slice cycles",
+    mc=[
+        dict(module="MC_Encode", cfg="MC_Encode_quick.cfg", tiers=("quick",), workers=8),
+        dict(module="MC_Encode", cfg="MC_Encode_thorough.cfg", tiers=("thorough",), workers=14, timeout=3400, heap="24g"),
+    ],
+    trace="Trace_Map",
+    drive=dict(quick=dict(n=600, size=4), thorough=dict(n=12000, size=10)),
+    nontrivial=lambda e: e["out"].get("k") == "ok" and (_map_ntoks(e) >= 2 or e["args"]["p1"].get("kind") == "index"),
+    corrupt=_corrupt_map,
+    rule="cases: every ordered token list of MC_Encode (<= MaxToks tokens over Lines x Cols with 5 payload kinds, duplicates and shared positions), each built via new/builder/doc; seeded random models (<= ~50..120 tokens, duplicate/empty/unicode strings, roots, contents, ignore lists, debug ids) and random Hermes / nested index documents; distinct = distinct (how, model); non-trivial = >= 2 tokens or an index map",
+    assumptions=COMMON_ASSUMPTIONS,
+)
+
+PROPS["C03"] = dict(
+    level="model_checking",
+    level_text="The crate's serialised output is parsed with serde_json::Value into an abstract document and judged by TLC with the INDEPENDENT decoder machine of Mappings.tla: version 3, mappings decode to exactly the map's tokens (minus exact duplicates), sources+sourceRoot/names/sourcesContent/file/ignoreList/debug_id carry the map's values, the five optional keys are absent (not null) when unset, recursively for sections with their offsets. Maps come from the TLC-enumerated universe (three construction routes) and from rewrite, flatten, adjust_mappings and to_data_url.",
+    level_note="the expected token list is what the crate reports through tokens(): C03 judges the writer, the producers are judged by C04/C08/C09/C10",
+    technique="TLA+ independent decoder applied by TLC to the real encoder's output (trace validation), universe enumerated by TLC (MC_Encode)",
+    mc=[
+        dict(module="MC_Encode", cfg="MC_Encode_quick.cfg", tiers=("quick",), workers=8),
+        dict(module="MC_Encode", cfg="MC_Encode_thorough.cfg", tiers=("thorough",), workers=14, timeout=3400, heap="24g"),
+    ],
+    trace="Trace_Map",
+    drive=dict(quick=dict(n=500, size=4), thorough=dict(n=10000, size=10)),
+    nontrivial=lambda e: e["out"].get("k") == "ok" and (_map_ntoks(e) >= 2 or e["args"]["p1"].get("kind") == "index"),
+    corrupt=_corrupt_map,
+    rule="cases: as C01; per realised map the direct serialisation plus the serialisations of rewrite(default), adjust_mappings(self), flatten (index maps) and the to_data_url payload; distinct = distinct (how, via, map projection); non-trivial = >= 2 tokens or an index map",
+    assumptions=COMMON_ASSUMPTIONS,
+)
